@@ -3,6 +3,12 @@
 import json, subprocess
 
 CHECKS = {
+ "C02": dict(category="fault_enumeration", technique="exhaustive fault injection: every fault kind at every token position of clean base projects, through the production binary",
+   text="Base projects (single file; file + include; file + -L library) x fault alphabet {invalid token, token deleted, token duplicated, unclosed comment} at every token position of the main file, plus structural faults (missing / non-UTF-8 / dangling file, missing second file, missing include, unsupported pragmas, sugar in functions, malformed sugar in templates, duplicate parameters, several mains, duplicate definitions with and without main). Oracle (a): faults whose effect is known by construction must show an error-level diagnostic and exit != 0, also under --level error; oracle (b): for every mutant without an error-level diagnostic the multiset of `analyzing ...` lines equals the definition headers found by an independent token scan.",
+   note="Trusted: token scanner (mc/src/space/tokens.rs), stdout parser. Runs as root: unreadable files are represented by non-UTF-8 content and dangling symlinks.", ref="5/C02"),
+ "C03": dict(category="model_checking", technique="explicit-state exploration of the real AnalysisRunner over every analysis order (history replay, hook H3) x every instantiation digraph; full option lattice through the binary against an output model",
+   text="(a) For every instantiation relation on 2 and 3 templates (+4 templates with <=3 edges in thorough) plus a function, every permutation of analyze(d) events is replayed on a fresh real runner; in every state the findings displayed for d equal d's findings in isolation (own lifting reports + all passes) and nothing is displayed twice. (b,c) For four corpus projects the full lattice level x 2^ids x verbose x sarif is run through the binary: exit 0 iff nothing displayed, summary count = diagnostics, SARIF results = displayed findings (id, level, message, uri, line, column) with one rule per id, displayed set = filter law applied to the unfiltered run; the unfiltered run itself is compared with the in-process unfiltered findings under the file clause.",
+   note="Hook H3 (per-definition analysis entry points, cache keys). Trusted: stdout/SARIF parsers, the isolation reference (route A lifting + passes).", ref="5/C03"),
  "C05": dict(category="model_checking", technique="exhaustive enumeration of all strings up to a length bound over a 7-symbol alphabet: product of the real comment stripper with a reference automaton",
    text="Every string of length <=8 (thorough <=10) over {/,*,newline,a,blank,quote,2-byte char} goes through the real preprocess (hook H1) and the 3-state reference automaton written from the property text: both accept or both report an unterminated comment, output length equals input length, code bytes identical, comment bytes blank. The implementation reacts to (state, char class, next class) triples, all of which are reached by strings of length <=4 and continued by every 4-6 symbol suffix.",
    note="Trusted: mc/src/refsem/lexer.rs (60 lines). Part (b), transparency through the whole pipeline, is reported in the same evidence file once built.", ref="5/C05"),
@@ -21,6 +27,9 @@ CHECKS = {
  "C14": dict(category="model_checking", technique="bounded exhaustive program enumeration + static SSA audit with dominance by definition + exhaustive path exploration of the real SSA graph tracking last-written versions",
    text="Every skeleton <=3/4 statements x every assignment of a 9-atom alphabet (assign, self-update, copy, redeclare, array element updates, parameter read/write, uninitialised declaration) x conditions x initialised/uninitialised array is converted by the real into_ssa; a static audit checks single definition, phi placement, dominance of every read by its definition (dominators recomputed by definition), unversioned signals, declaration coverage; then every path (each block visited <= unroll+1 times) is walked keeping the version written last per variable: every read must name it and every phi must list the version current on the edge taken.",
    note="Trusted: mc/src/props/c14.rs audit code, refsem/dom.rs. One open known finding (phi without argument for a path on which the variable is never assigned).", ref="5/C14"),
+ "C19": dict(category="model_checking", technique="exhaustive enumeration of all include graphs on <=3 files x spellings x named subsets x library configurations through the binary, with an in-process twin for the file library",
+   text="Every adjacency matrix (self-includes, cycles, diamonds) on 1..3 files x edge spelling {plain, ./, sub/../, symlink alias, mixed} x every non-empty set of named files x library configuration {none, unresolvable, -L dir, -L file, -L dir + library file also named} + one edge retargeted to a missing file. Oracle: terminates; analysed templates = templates of named files; findings only in named files; one CS0018 per instantiated included template (included definitions inform the analysis); an unresolvable include yields an error at the include statement's line:1; each canonical file appears exactly once in the file library and the set of files read equals the reachable set.",
+   note="Trusted: the include-graph model in mc/src/props/c19.rs. Graphs beyond 3 files are not explored.", ref="5/C19"),
  "C20": dict(category="model_checking", technique="exhaustive enumeration of every propagation cut point (pass budget 0..fix-point, hook H2) for values and degrees independently, C06/C07 oracles and all analysis passes at every cut state",
    text="For every program of slices of the C06/C07 spaces the number of passes to the fix-point is learned, then SSA conversion is re-run with every pass budget 0..=Pv (values) and 0..=Pd (degrees): conversion must return, all 13 analysis passes must run without panic, and every value / degree claim present at that cut must satisfy the C06 / C07 oracle. States = (program, kind, cut index); transitions = passes executed; all on the real code.",
    note="Hook H2 (pass budget next to the elapsed-time test). Budget 0 is included. A violation that is also present at the fix-point is tagged so and belongs to C06/C07.", ref="5/C20"),
